@@ -266,7 +266,13 @@ def _sweep_session():
                           ("10^30", V.ValueInt(10 ** 30)),
                           ("-2^63-1", V.ValueInt(-2 ** 63 - 1)),
                           ("2^53+1.0", V.ValueDecimal(float(2 ** 53 + 2))),
-                          ("1e300", V.ValueDecimal(1e300))):
+                          ("1e300", V.ValueDecimal(1e300)),
+                          # a text for the parsers of other notations
+                          ("'[1, true, {\"a\": 1.5, \"b\": false}]'",
+                           V.ValueString('[1, true, {"a": 1.5, '
+                                         '"b": false}]')),
+                          ("date('20200301')", V.ValueDate(
+                              __import__("datetime").datetime(2020, 3, 1)))):
             if name not in sweep.POOL_INDEX:
                 sweep.POOL.append((name, lambda s, val=val: val))
                 sweep.POOL_INDEX[name] = len(sweep.POOL) - 1
@@ -370,7 +376,8 @@ def explore_results(chunk):
         if n >= 1:
             tuples += [(a,) for a in names]
         if n >= 2:
-            pool2 = names if chunk["tier"] == "thorough" else sweep.SUBPOOL
+            pool2 = names if chunk["tier"] == "thorough" else \
+                sweep.SUBPOOL + ["date('20200229')", "date('20200301')"]
             tuples += [(a, b) for a in pool2 for b in pool2]
         for t in tuples:
             o = call_result(fname, t)
